@@ -546,7 +546,10 @@ def l_formatted(P):
     vn, v = child_node(P, "value")
     out = run(P, "_build_formatted", SObj("ast.FormattedValue", {"value": vn}, frozen=True))
     if out is not None:
-        P.prove("text_is_braced_value_with_grouping", out[1] == cat("{", need(v, OR), "}"))
+        inner = need(v, OR)
+        # `{{` is an escaped brace: a value whose text starts with a brace (dict / set display or comprehension) is set off by a space
+        P.prove("text_is_braced_value_with_grouping_set_off_from_an_opening_brace",
+                out[1] == z3.If(z3.PrefixOf(z3.StringVal("{"), inner), cat("{ ", inner, "}"), cat("{", inner, "}")))
         P.prove("value_is_built_as_formatted_content", all(kw.get("in_formatted_str") is True for _, kw in P.ghost["built"]))
 
 
